@@ -296,3 +296,204 @@ func H_chain(c int) {
 	}
 	verifAssert(out == want, "a directive chain is not the left-to-right composition of its directives")
 }
+
+// ---- |json ----
+
+// jsonParse is a reference parser for the JSON subset the directive can emit for the harness
+// values (null, booleans, small integers, strings, arrays, objects); returns the parsed value
+// as Soy data and the rest of the input; ok=false on malformed input.
+func jsonParse(s string) (data.Value, string, bool) {
+	if len(s) == 0 {
+		return nil, s, false
+	}
+	switch {
+	case len(s) >= 4 && s[:4] == "null":
+		return data.Null{}, s[4:], true
+	case len(s) >= 4 && s[:4] == "true":
+		return data.Bool(true), s[4:], true
+	case len(s) >= 5 && s[:5] == "false":
+		return data.Bool(false), s[5:], true
+	case s[0] == '-' || s[0] >= '0' && s[0] <= '9':
+		i, neg := 0, false
+		if s[0] == '-' {
+			neg, i = true, 1
+		}
+		n := 0
+		st := i
+		for i < len(s) && s[i] >= '0' && s[i] <= '9' {
+			n = n*10 + int(s[i]-'0')
+			i++
+		}
+		if i == st {
+			return nil, s, false
+		}
+		if neg {
+			n = -n
+		}
+		return data.Int(n), s[i:], true
+	case s[0] == '"':
+		var out []byte
+		i := 1
+		for ; i < len(s) && s[i] != '"'; i++ {
+			c := s[i]
+			if c < 0x20 {
+				return nil, s, false // control characters must be escaped
+			}
+			if c != '\\' {
+				out = append(out, c)
+				continue
+			}
+			i++
+			if i >= len(s) {
+				return nil, s, false
+			}
+			switch s[i] {
+			case '"', '\\', '/':
+				out = append(out, s[i])
+			case 'n':
+				out = append(out, '\n')
+			case 'r':
+				out = append(out, '\r')
+			case 't':
+				out = append(out, '\t')
+			case 'b':
+				out = append(out, '\b')
+			case 'f':
+				out = append(out, '\f')
+			case 'u':
+				if i+4 >= len(s) {
+					return nil, s, false
+				}
+				r := 0
+				for j := 1; j <= 4; j++ {
+					h := c16Hex(s[i+j])
+					if h < 0 {
+						return nil, s, false
+					}
+					r = r<<4 | h
+				}
+				out = utf8.AppendRune(out, rune(r))
+				i += 4
+			default:
+				return nil, s, false // \x, \U, \a, \v ... are not JSON
+			}
+		}
+		if i >= len(s) {
+			return nil, s, false
+		}
+		return data.String(out), s[i+1:], true
+	case s[0] == '[':
+		l := data.List{}
+		rest := s[1:]
+		if len(rest) > 0 && rest[0] == ']' {
+			return l, rest[1:], true
+		}
+		for {
+			v, r, ok := jsonParse(rest)
+			if !ok || len(r) == 0 {
+				return nil, s, false
+			}
+			l = append(l, v)
+			if r[0] == ']' {
+				return l, r[1:], true
+			}
+			if r[0] != ',' {
+				return nil, s, false
+			}
+			rest = r[1:]
+		}
+	case s[0] == '{':
+		m := data.Map{}
+		rest := s[1:]
+		if len(rest) > 0 && rest[0] == '}' {
+			return m, rest[1:], true
+		}
+		for {
+			k, r, ok := jsonParse(rest)
+			ks, isStr := k.(data.String)
+			if !ok || !isStr || len(r) == 0 || r[0] != ':' {
+				return nil, s, false
+			}
+			v, r2, ok := jsonParse(r[1:])
+			if !ok || len(r2) == 0 {
+				return nil, s, false
+			}
+			m[string(ks)] = v
+			if r2[0] == '}' {
+				return m, r2[1:], true
+			}
+			if r2[0] != ',' {
+				return nil, s, false
+			}
+			rest = r2[1:]
+		}
+	}
+	return nil, s, false
+}
+
+func jsonSame(a, b data.Value) bool {
+	switch x := a.(type) {
+	case data.Null, data.Undefined:
+		_, ok := b.(data.Null)
+		return ok
+	case data.Bool:
+		y, ok := b.(data.Bool)
+		return ok && x == y
+	case data.Int:
+		y, ok := b.(data.Int)
+		return ok && x == y
+	case data.String:
+		y, ok := b.(data.String)
+		return ok && x == y
+	case data.List:
+		y, ok := b.(data.List)
+		if !ok || len(x) != len(y) {
+			return false
+		}
+		for i := range x {
+			if !jsonSame(x[i], y[i]) {
+				return false
+			}
+		}
+		return true
+	case data.Map:
+		y, ok := b.(data.Map)
+		if !ok || len(x) != len(y) {
+			return false
+		}
+		for k, v := range x {
+			w, ok := y[k]
+			if !ok || !jsonSame(v, w) {
+				return false
+			}
+		}
+		return true
+	}
+	return false
+}
+
+// H_json: {$x|json} parses (by a reference JSON parser) to a value structurally equal to the
+// input; shape selects the value: 0 string of n symbolic bytes (valid UTF-8), 1 list
+// [string, bool, null, small int], 2 map with a string and a nested list, 3 undefined inside a map.
+func H_json(shape, n int) {
+	s := verifString(n)
+	verifAssume(utf8.ValidString(s))
+	var v data.Value
+	switch shape {
+	case 0:
+		v = data.String(s)
+	case 1:
+		v = data.List{data.String(s), data.Bool(verifBool()), data.Null{}, data.Int(int64(verifChoose(5)) - 2)}
+	case 2:
+		v = data.Map{"k": data.String(s), "l": data.List{data.String(s), data.List{}}, "e": data.Map{}}
+	case 3:
+		v = data.Map{"u": data.Undefined{}, "s": data.String(s)}
+	}
+	out, failed := c16Apply("json", v)
+	verifObserve("s", s)
+	verifObserve("out", out)
+	verifAssert(!failed, "json directive panicked")
+	back, rest, ok := jsonParse(out)
+	verifAssert(ok && rest == "", "json output is not well-formed JSON")
+	verifAssert(jsonSame(v, back), "json output does not parse to a value structurally equal to the input")
+}
